@@ -233,7 +233,7 @@ func scenarios() []*scenario {
 					{{"Verify#2", ver}},
 				}, final: func() string { return "" }}
 			}},
-		{id: "S3", title: "shared mobile.Reader: ReadDocument || SetApduMaxLe;SkipImages || ReadDocument", syncBound: [2]int{2, 3}, stmtBound: [2]int{2, 2},
+		{id: "S3", title: "shared mobile.Reader: ReadDocument || SetApduMaxLe;SkipImages || ReadDocument", syncBound: [2]int{2, 2}, stmtBound: [2]int{2, 2},
 			make: func(e *env) *instance {
 				chip := e.w.NewChip()
 				st := &mobileStatus{}
@@ -257,7 +257,7 @@ func scenarios() []*scenario {
 					return fmt.Sprintf("%s status=%d/%d loaders=%v", chip.Observe(), st.n, st.dgs, cms.VerifLoaderCalls())
 				}}
 			}},
-		{id: "S4", title: "two reader.Readers and a verifier.Verifier sharing one GenericCertPool inside a CombinedCertPool", syncBound: [2]int{2, 3}, stmtBound: [2]int{1, 2},
+		{id: "S4", title: "two reader.Readers and a verifier.Verifier sharing one GenericCertPool inside a CombinedCertPool", syncBound: [2]int{2, 3}, stmtBound: [2]int{1, 1},
 			make: func(e *env) *instance {
 				shared := e.pool()
 				other := &cms.GenericCertPool{}
@@ -293,7 +293,7 @@ func scenarios() []*scenario {
 }
 
 func s5(id, title string, fail bool) *scenario {
-	return &scenario{id: id, title: title, syncBound: [2]int{2, 3}, stmtBound: [2]int{1, 2},
+	return &scenario{id: id, title: title, syncBound: [2]int{2, 3}, stmtBound: [2]int{1, 1},
 		make: func(e *env) *instance {
 			cms.VerifSetStubFail(fail)
 			v := mobile.NewVerifier()
